@@ -41,3 +41,121 @@ Fixpoint bundle_included (ntags : nat) (archs : list string) : list bool :=
       (negb (Nat.eqb ntags 0) && negb (existsb (String.eqb (bundle_key a)) (List.map bundle_key rest)))
         :: bundle_included ntags rest
   end.
+
+(* ---- Go maps: association lists with distinct keys; "for k, v := range m"
+        visits the keys in an order [ord] the caller quantifies over ---------- *)
+Definition range_map {V} (m : list (string * V)) (ord : list string) : list (string * V) :=
+  flat_map (fun k => match alookup k m with Some v => [(k, v)] | None => [] end) ord.
+
+(* m[k] = v *)
+Fixpoint aset {V} (k : string) (v : V) (m : list (string * V)) : list (string * V) :=
+  match m with
+  | [] => [(k, v)]
+  | (k', v') :: m' => if String.eqb k k' then (k, v) :: m' else (k', v') :: aset k v m'
+  end.
+
+(* ---- BuildImageFromLayers: environment ------------------------------------
+   env := clone(ic.Environment); for k, v := range defaults { if k not in env
+   { env[k] = v } }; for k, v := range env { envs += k "=" v }; sort.Strings *)
+Definition add_default (env : list (string * string)) (kv : string * string) : list (string * string) :=
+  match alookup (fst kv) env with Some _ => env | None => env ++ [kv] end.
+Definition with_defaults (defaults : list (string * string)) (dord : list string)
+    (env : list (string * string)) : list (string * string) :=
+  fold_left add_default (range_map defaults dord) env.
+Definition env_entry (kv : string * string) : string := (fst kv ++ "=" ++ snd kv)%string.
+Definition render_env (defaults : list (string * string)) (dord : list string)
+    (env : list (string * string)) (ord : list string) : list string :=
+  isort (fun s => s) (List.map env_entry (range_map (with_defaults defaults dord env) ord)).
+
+(* ---- BuildImageFromLayers: the whole config -------------------------------- *)
+Record image_config := {          (* what BuildImageFromLayers reads of types.ImageConfiguration *)
+  ic_shell_fragment : string;     (* entrypoint.shell-fragment *)
+  ic_command : string;            (* entrypoint.command *)
+  ic_cmd : string;
+  ic_workdir : string;
+  ic_run_as : string;             (* accounts.run-as *)
+  ic_stop_signal : string;
+  ic_volumes : list string;       (* nil and empty are the same after MergeInto (slices.Concat) *)
+  ic_env : list (string * string);
+  ic_annotations : list (string * string);
+  ic_vcs_url : string }.
+
+Record oci_config := {            (* observable part of v1.ConfigFile *)
+  oc_author : string; oc_os : string; oc_architecture : string; oc_variant : string;
+  oc_created : Z;                 (* Unix seconds *)
+  oc_entrypoint : list string; oc_cmd : list string;
+  oc_workdir : string; oc_user : string; oc_stop_signal : string;
+  oc_volumes : list string;       (* a set: compared up to order and repetition *)
+  oc_env : list string;
+  oc_labels : list (string * string) }.
+
+(* key stored by  annotations["<key>"] = <rhs>  for a given right-hand side *)
+Fixpoint key_of_store (rhs : string) (stores : list (string * string)) : string :=
+  match stores with
+  | [] => ""
+  | (k, r) :: more => if String.eqb r rhs then k else key_of_store rhs more
+  end.
+Definition lit_of (field : string) : string :=
+  match alookup field config_literals with Some s => s | None => "" end.
+
+Definition nonempty (s : string) : bool := negb (String.eqb s "").
+
+Section Config.
+  Variable shlex : string -> option (list string).   (* github.com/google/shlex Split; None = error *)
+  Variable rfc3339 : Z -> string.                    (* created.Format(time.RFC3339) *)
+
+  Definition vcs_annotations (stores : list (string * string)) (vcs : string) (created : Z)
+      (ann : list (string * string)) : list (string * string) :=
+    let ann1 :=
+      if nonempty vcs then
+        match cut_at vcs_separator vcs with
+        | Some (url, hash) => aset (key_of_store "hash" stores) hash (aset (key_of_store "url" stores) url ann)
+        | None => ann
+        end
+      else ann in
+    aset (key_of_store "created.Format(time.RFC3339)" stores) (rfc3339 created) ann1.
+
+  Definition split_or (s : string) (dflt : list string) : res (list string) :=
+    if nonempty s then match shlex s with Some l => Ok l | None => Err end else Ok dflt.
+
+  (* [base] = config of the base image (empty.Image: all fields empty) *)
+  Definition build_config (base : oci_config) (ic : image_config) (created : Z) (arch : string)
+      (dord eord : list string) : res oci_config :=
+    let labels := vcs_annotations image_annotation_stores (ic_vcs_url ic) created (ic_annotations ic) in
+    let plat := to_oci_platform arch in
+    do ep <- (if nonempty (ic_shell_fragment ic)
+              then Ok (shell_entrypoint_prefix ++ [ic_shell_fragment ic])
+              else split_or (ic_command ic) (oc_entrypoint base));
+    do cmd <- split_or (ic_cmd ic) (oc_cmd base);
+    Ok {| oc_author := lit_of "cfg.Author"; oc_os := lit_of "cfg.OS";
+          oc_architecture := fst plat; oc_variant := snd plat;
+          oc_created := created;
+          oc_entrypoint := ep; oc_cmd := cmd;
+          oc_workdir := if nonempty (ic_workdir ic) then ic_workdir ic else oc_workdir base;
+          oc_user := if nonempty (ic_run_as ic) then ic_run_as ic else oc_user base;
+          oc_stop_signal := if nonempty (ic_stop_signal ic) then ic_stop_signal ic else oc_stop_signal base;
+          oc_volumes := match ic_volumes ic with [] => oc_volumes base | vs => vs end;
+          oc_env := render_env default_env dord (ic_env ic) eord;
+          oc_labels := labels |}.
+End Config.
+
+Definition empty_config : oci_config :=
+  {| oc_author := ""; oc_os := ""; oc_architecture := ""; oc_variant := ""; oc_created := 0%Z;
+     oc_entrypoint := []; oc_cmd := []; oc_workdir := ""; oc_user := ""; oc_stop_signal := "";
+     oc_volumes := []; oc_env := []; oc_labels := [] |}.
+
+(* ---- generateIndexWithMediaType ---------------------------------------------
+   [imgs] : architecture key -> image (abstract descriptor D); the keys are
+   collected in map order [ord], sorted by their string, and each manifest gets
+   the image's descriptor and that key's platform *)
+Record index_entry (D : Type) := { ie_key : string; ie_desc : D; ie_arch : string; ie_variant : string; ie_os : string }.
+Arguments ie_key {D}. Arguments ie_desc {D}. Arguments ie_arch {D}. Arguments ie_variant {D}. Arguments ie_os {D}.
+
+Definition generate_index {D} (imgs : list (string * D)) (ord : list string) : list (index_entry D) :=
+  List.map (fun kd => let p := to_oci_platform (fst kd) in
+                   {| ie_key := fst kd; ie_desc := snd kd; ie_arch := fst p; ie_variant := snd p; ie_os := oci_platform_os |})
+           (isort fst (range_map imgs ord)).
+
+(* index annotations (OCI media type only): same three stores as the image *)
+Definition index_annotations (rfc3339 : Z -> string) (vcs : string) (created : Z) (ann : list (string * string)) :=
+  vcs_annotations rfc3339 index_annotation_stores vcs created ann.
